@@ -188,6 +188,45 @@ def gen_labels(L):
             yield ("A", (l, "name"), skeleton(iname=l), "repr", False)
 
 
+PADDED = (" ", "  ", "\n", " \n ", " a", "a ", " a b ", "\ta\n", " \"\" ")
+
+
+def check_padded(case):
+    """Labels with surrounding / only whitespace in conformant TEXT files: praatio normalises labels by strip() (C05); the
+    three text layouts must agree, labels come back stripped, and with includeEmptyIntervals=False exactly the entries whose
+    (normalised) label is empty are omitted."""
+    lab, pos = case
+    l1 = lab if pos == "ilabel" else "x"
+    pm = lab if pos == "plabel" else "z"
+    lo, hi, tiers = 0, 3, (("I", "t", 0, 3, ((0, 1, l1), (1.5, 2, "y"))), ("P", "p", 0, 3, ((1, pm), (2, "w"))))
+    data = mkdata(lo, hi, tiers)
+    fn = os.path.join(scratch_dir(), "c03p.TextGrid")
+    viols = []
+    n = 0
+    for incl in (True, False):
+        seen = {}
+        for layout in ("long", "elan", "short"):
+            for nl in NEWLINES:
+                with open(fn, "wb") as fd:
+                    fd.write(to_bytes(render(data, layout, "repr", False), "utf-8", nl))
+                n += 1
+                st, r, _ = call(_tgmod.openTextgrid, fn, incl, "silence")
+                cfg = f"layout={layout} newline={'CRLF' if nl != chr(10) else 'LF'} includeEmptyIntervals={incl} label {lab!r} as {pos}"
+                if st == "exc":
+                    viols.append(Viol("open-raised:" + type(r).__name__, f"{cfg}: {r!r}"))
+                    continue
+                exp = (0.0, 3.0, [(t["class"], t["name"], 0.0, 3.0,
+                                   [tuple(float(v) for v in e[:-1]) + (e[-1].strip(),) for e in t["entries"] if incl or e[-1].strip() != ""])
+                                  for t in data["tiers"]])
+                msg = same(observe(r), exp)
+                if msg:
+                    viols.append(Viol("padded-label", f"{cfg}: {msg}"))
+                seen[(layout, nl)] = observe(r)
+        if len(set(repr(v) for v in seen.values())) > 1:
+            viols.append(Viol("layouts-disagree", f"label {lab!r} as {pos}, includeEmptyIntervals={incl}: the text layouts open to different textgrids: {seen}"))
+    return n, "ok", (lab, pos), viols
+
+
 def gen_structure():
     G = (0, 1, 2.5, 3)
     ivs = [()] + [((a, b, l),) for a, b in itertools.combinations(G, 2) for l in ("x", "")] + \
@@ -245,6 +284,10 @@ def parts(tier):
         InputPart("number-notations", lambda: gen_numbers(not quick), check,
                   rule="every ordered pair of NUM values written in 5 notations (repr, always-float, trailing zero, exponent, EXPONENT) "
                        "with and without '-0' starts", bounds={}, chunk=4),
+        InputPart("padded-labels", lambda: ((l, p) for l in PADDED for p in ("ilabel", "plabel")), check_padded,
+                  rule="labels with surrounding or only whitespace (%d) as interval label / point mark in long, elan-long and short files x "
+                       "newline x includeEmptyIntervals: stripped on reading, whitespace-only ones omitted like empty ones, all text layouts "
+                       "agree" % len(PADDED), bounds={}, chunk=1),
         InputPart("duplicate-names", gen_duplicates, check,
                   rule="name lists with duplicates incl. (a,a,a_2,a): 'error' raises DuplicateTierName, 'rename' keeps count/order, "
                        "unique names, first occurrences untouched, renamed names extend the original", bounds={}, chunk=1),
